@@ -73,9 +73,9 @@ func runC07(c *Ctx) {
 		CallerHolds: map[string]eng.LockMode{"(*" + pmT + ").getProviderSetForKey": eng.LockW},
 		ReadNeedsW:  true,
 		Exempt: map[string]string{
-			"dht/records.NewProviderManager":     "constructor: object not yet shared",
-			"dht/records.Cache":                  "option closure, runs inside the constructor",
-			"(*" + pmT + ").collectExpired":      "background sweep: by design touches only the (concurrency-safe) datastore, never the cache or stopped",
+			"dht/records.NewProviderManager": "constructor: object not yet shared",
+			"dht/records.Cache":              "option closure, runs inside the constructor",
+			"(*" + pmT + ").collectExpired":  "background sweep: by design touches only the (concurrency-safe) datastore, never the cache or stopped",
 		},
 	}, "dht/records")
 	c.Check("accesses", 0, n >= 7, "at least 7 guarded accesses exist", "found "+itoa(n))
